@@ -41,22 +41,25 @@ def family(dt):
     return ':'.join(real_type(dt).split(':')[:2])
 
 
-def gen_etype(rng, force_version=None, add_multi=False):
+def gen_etype(rng, force_version=None, add_multi=False, strategies=None, exclude_types=()):
     """returns list of property dicts + version property name or None"""
     props = []
     has_version = rng.random() < 0.5 if force_version is None else force_version
     n = rng.choice([1, 2, 3, 3, 4, 5])
-    strategies = ['match', 'match', 'any', 'add', 'set', 'min', 'max'] + (['replace', 'replace'] if has_version else [])
+    strategies = strategies or (['match', 'match', 'any', 'add', 'set', 'min', 'max'] + (['replace', 'replace'] if has_version else []))
+    minmax = [t for t in MINMAX_TYPES if t not in exclude_types]
+    anytypes = [t for t in POOLS if t not in exclude_types]
+    matchtypes = [t for t in MATCH_TYPES if t not in exclude_types]
     for i in range(n):
         s = rng.choice(strategies)
         if s in ('min', 'max'):
-            dt, multi, opt = rng.choice(MINMAX_TYPES), False, False
+            dt, multi, opt = rng.choice(minmax), False, False
         elif s == 'replace':
-            dt, multi, opt = rng.choice(list(POOLS)), False, rng.random() < 0.5
+            dt, multi, opt = rng.choice(anytypes), False, rng.random() < 0.5
         elif s == 'match':
-            dt, multi, opt = rng.choice(MATCH_TYPES), rng.random() < 0.5, rng.random() < 0.4
+            dt, multi, opt = rng.choice(matchtypes), rng.random() < 0.5, rng.random() < 0.4
         else:
-            dt, multi, opt = rng.choice(list(POOLS)), rng.random() < 0.5, rng.random() < 0.5
+            dt, multi, opt = rng.choice(anytypes), rng.random() < 0.5, rng.random() < 0.5
         if s == 'add' and add_multi:
             multi = True       # the stream mergers write (and validate) their result
         props.append({'name': 'p%d' % i, 'object_type': 'o' + str(i), 'data_type': dt, 'merge': s, 'multivalued': multi, 'optional': opt})
